@@ -4,7 +4,9 @@ reg("C35", [mon("hydro", "hv_net_emb"), cargotest("hydro", "hv_net_flows", "test
     technique="runtime monitor: sender/receiver code emitted by the production generator (generate_embedded) for every "
               "process/cluster networking shape x payload type, instantiated once per member; the harness is the transport "
               "(routes each frame by the member-id tag the generated code emitted, tags with the sender id); received "
-              "sequences judged by a per-(receiver, sender) expectation oracle; MemberId<->TaglessMemberId round trips",
+              "sequences judged by a per-(receiver, sender) expectation oracle; MemberId<->TaglessMemberId round trips. "
+              "Second stage: the Hydro simulator's own network (exhaustive + seeded schedules) on multi-channel, multi-cluster, "
+              "multi-version flows, every member observed, same oracle",
     text="For 47 generated programs (o2o, o2m demux / keyed demux / broadcast, m2o / keyed / CLUSTER_SELF_ID, m2m demux / "
          "broadcast; payloads i64, String, Option<Vec<(i64,String)>>, a recursive enum, a nested struct, a struct carrying "
          "MemberIds, a (String, struct) pair; bincode and `.embedded()` serialization) random scenarios (quick 150, thorough 1500 "
@@ -14,8 +16,17 @@ reg("C35", [mon("hydro", "hv_net_emb"), cargotest("hydro", "hv_net_flows", "test
          "i64::MIN/MAX, empty and 70k-char strings, None, 30-deep nesting included), exactly once, in per-sender order, only at the "
          "addressed member(s), keyed by the true sender id; wire destination tags equal the addressed ids (an unknown id is never "
          "redirected to a member); CLUSTER_SELF_ID equals the instance id; 10^4 (thorough 10^5) raw ids round-trip through "
-         "from_raw_id/get_raw_id/into_tagless/from_tagless and both serde forms.",
+         "from_raw_id/get_raw_id/into_tagless/from_tagless and both serde forms. Simulator stage (hv_net_flows "
+         "tests::c35_sim_network): 3 compiled flows - one process demuxing to two clusters over the same channel name and over "
+         "unnamed channels, a second process and the first cluster's members sending to the same clusters / a process over shared "
+         "names; the same as a multi-version flow (a destination cluster with v0 and v1, cross-version addresses); cluster->cluster "
+         "broadcast - with nested struct payloads; hand-written 1-3 message scripts under `exhaustive` (about 38k executions, "
+         "almost all from the broadcast shape) and 150/1500 random 4-10 message scripts per flow under seeded schedules; per execution "
+         "every delivered value must equal a sent one, come out of the channel it was sent on at the addressed member with the "
+         "sender's id, in per-sender order, exactly once, and nothing may be lost.",
     note="The transport is the harness's in-memory one (per-link FIFO, no loss, no connection failure); ticks are run with "
          "run_tick_sync. For broadcasts the expected recipients of a message are the members whose Joined event was fed in an "
          "earlier tick and that have not left (a frame emitted to a member after its Left event was fed is a violation, per the doc sentence 'only broadcast to the current cluster members at that point in time'); membership events and data are never fed in the same tick. Only the "
-         "`Legacy {raw_id}` member-id representation exists in this build. The simulator's network is not exercised here.")
+         "`Legacy {raw_id}` member-id representation exists in this build. In the simulator stage sends "
+         "precede all observations (no mid-run sends), payloads are one struct type, clusters have 2-3 members; a simulator that "
+         "fails to compile for these flows makes the run inconclusive, not a violation.")
